@@ -394,3 +394,25 @@ def check(ctx):
         ok = calls == {reg, unreg} and futs == {fut_}
         ctx.ob("R18-g", f_, f"{q_.split('.')[-1]} registers, unregisters and records its own direction", ok, by=(reg, unreg, fut_),
                detail="" if ok else f"{q_} uses {sorted(calls)} / {sorted(futs)}; expected {reg}, {unreg} and {fut_}")
+
+    # ---- R18-h closing a raw socket stream releases *both* directions: a task blocked in receive() and a task blocked in send() are each
+    # woken (their next attempt then finds the socket closed and raises ClosedResourceError), independently of one another - the send
+    # wake-up must not depend on whether a receive was pending (full-duplex use), and vice versa
+    rac = ctx.fn("_RawSocketMixin.aclose", A)
+    wk = {}
+    for dir_, other in (("_receive_future", "_send_future"), ("_send_future", "_receive_future")):
+        ss = ctx.sites(rac, f"self.{dir_}.set_result($*X)")
+        if not ctx.need("R18-h", rac, f"wake-up of the pending `{dir_}`", len(ss), 1):
+            continue
+        ko, kd = F(f"self.{other}")[0], F(f"self.{other}.done()")[0]
+        pol = set()
+        ok = False
+        for fa in ctx.facts_at(rac, ss[0][0]) or []:
+            d_ = dict(fa)
+            pol.add(d_.get(ko))
+            # a path on which the other direction may be pending too (set and not done) - the full-duplex case
+            if d_.get(ko) is not False and d_.get(kd) is not True:
+                ok = True
+        ctx.ob("R18-h", rac, f"the wake-up of `{dir_}` does not depend on the state of `{other}`", ok, node=ss[0][0], by=("reached under both states of the other direction",),
+               detail="" if ok else f"`{norm(ss[0][0])}` is never reached while `self.{other}` is pending as well: with both directions blocked one task stays blocked for ever")
+        ctx.require_at("R18-h", rac, ss[0][0], [[f"self.{dir_}", f"not self.{dir_}.done()"]], instance=f"only a pending `{dir_}` is completed", what="wake-up")
